@@ -392,7 +392,7 @@ func mcGenOp(t *rapid.T) mcOp {
 	op.Sig = Weighted(t, "sig", []int{62, 6, 6, 5, 6, 5, 5, 5})
 	op.To = Pick(t, "to", 4)
 	op.Amt = Weighted(t, "amt", []int{30, 10, 8, 10, 12, 12, 6, 6, 6})
-	op.Data = Weighted(t, "data", []int{30, 25, 10, 8, 8, 12, 7})
+	op.Data = Weighted(t, "data", []int{30, 25, 10, 8, 8, 12, 7, 6, 4})
 	op.Tok = Pick(t, "tok", 3)
 	op.Tgt = Pick(t, "tgt", 2)
 	op.Gap = Weighted(t, "gap", gw)
@@ -1086,6 +1086,11 @@ func (e *mcEngine) build(op mcOp) []*mcTx {
 			mt.data, dname, f = bytes.Repeat([]byte{9}, 21), "21 bytes", orStr(f, "arg.malformed")
 		case 5:
 			mt.data, dname = mcMarker, "ignore-marker"
+		case 7:
+			// a receiver whose 20 bytes merely begin like the ignore marker
+			mt.data, dname = append(append([]byte{}, mcMarker...), bytes.Repeat([]byte{3}, 20-len(mcMarker))...), "20 bytes beginning with the ignore marker"
+		case 8:
+			mt.data, dname, f = append(append([]byte{}, mcMarker...), 1), "ignore marker plus one byte", orStr(f, "arg.malformed")
 		default:
 			mt.data, dname = neofs.BytesBE(), "20 bytes (NeoFS itself)"
 		}
